@@ -58,6 +58,7 @@ func main() {
 	sites := fs.Int("sites", 0, "number of instrumented sites")
 	reps := fs.Int("reps", 1, "repetitions (par)")
 	summary := fs.String("summary", "", "write corpus classification summary here (gen)")
+	soak := fs.Int("soak", -1, "soak batch: force ecosystem number N (mod count) in every run (gen)")
 	reverse := fs.Bool("reverse", false, "evaluate cases and operations in reverse order (ref)")
 	budget := fs.Uint64("opbudget", 4_000_000, "per-operation step budget")
 	fs.Parse(os.Args[2:])
@@ -75,6 +76,10 @@ func main() {
 		var c harness.Classified
 		readJSON(*corpus, &c)
 		g := harness.GenFromClassified(&c, *tier)
+		if *soak >= 0 {
+			names := harness.EcoNames()
+			g.Soak = names[*soak%len(names)]
+		}
 		b := harness.Batch{Seed: *seed, Tier: *tier, Batch: *batch}
 		for i := *from; i < *to; i++ {
 			sp := g.Spec(*seed, i)
